@@ -942,21 +942,31 @@ class SyncObj(object):
                         self.__deleteEntriesFrom(prevLogIdx)
                     self.__sendNextNodeIdx(node, nextNodeIdx = prevLogIdx, success = False, reset=True)
                     return
-                if len(prevEntries) > 1:
+                # Entries we already hold (same index and term) are kept; only a conflicting suffix is replaced.
+                # Deleting everything after prevLogIdx on every append_entries would let a re-sent (older or
+                # batch-limited) message shorten the log below what the leader already counts as acknowledged.
+                existingEntries = prevEntries[1:]
+                sameEntries = 0
+                while sameEntries < len(existingEntries) and sameEntries < len(newEntries) and \
+                        existingEntries[sameEntries][2] == newEntries[sameEntries][2]:
+                    sameEntries += 1
+                if sameEntries < len(existingEntries) and sameEntries < len(newEntries):
                     # rollback cluster changes
                     if self.__conf.dynamicMembershipChange:
-                        for entry in reversed(prevEntries[1:]):
+                        for entry in reversed(existingEntries[sameEntries:]):
                             clusterChangeRequest = self.__parseChangeClusterRequest(entry[0])
                             if clusterChangeRequest is not None:
                                 self.__doChangeCluster(clusterChangeRequest, reverse=True)
 
-                    self.__deleteEntriesFrom(prevLogIdx + 1)
-                for entry in newEntries:
+                    self.__deleteEntriesFrom(prevLogIdx + 1 + sameEntries)
+                    existingEntries = existingEntries[:sameEntries]
+                addedEntries = newEntries[len(existingEntries):]
+                for entry in addedEntries:
                     self.__raftLog.add(*entry)
 
                 # apply cluster changes
                 if self.__conf.dynamicMembershipChange:
-                    for entry in newEntries:
+                    for entry in addedEntries:
                         clusterChangeRequest = self.__parseChangeClusterRequest(entry[0])
                         if clusterChangeRequest is not None:
                             self.__doChangeCluster(clusterChangeRequest)
@@ -966,6 +976,8 @@ class SyncObj(object):
                     nextNodeIdx = newEntries[-1][1] + 1
 
                 self.__sendNextNodeIdx(node, nextNodeIdx=nextNodeIdx, success=True)
+                # Only what this message has verified may be committed (a longer local tail is unverified)
+                leaderCommitIndex = min(leaderCommitIndex, nextNodeIdx - 1)
 
             # Install snapshot
             else:
